@@ -319,7 +319,13 @@ pub struct RunResult {
     pub grants: usize,
     pub queue_len_samples: Vec<u64>,
     pub counters: HashMap<String, u64>,
+    /// the runnable set at every grant (systematic exploration branches on it)
+    pub runnable_sets: Vec<Vec<usize>>,
 }
+
+/// `writer_bias` value that turns `replay_choices` into a forced prefix: afterwards the run continues with the
+/// non-preemptive default policy (keep the running thread while it can run, else the lowest-numbered one).
+pub const PREFIX_MODE: u64 = u64::MAX;
 
 fn lw(res: u8, rep: Option<u8>, dl: bool, fl: bool) -> Sx {
     sx::tag(9, vec![sx::n(res), sx::n(rep.map(|r| r as u64 + 1).unwrap_or(0)), sx::boolean(dl), sx::boolean(fl)])
@@ -537,6 +543,7 @@ pub fn run_scheduled(plan: &Plan, rng: &mut Rng, replay_choices: Option<&[usize]
         grants: 0,
         queue_len_samples: vec![],
         counters: HashMap::new(),
+        runnable_sets: vec![],
     };
     if !ctl.settle() {
         res.end = "threads did not reach their first synchronisation point";
@@ -589,6 +596,16 @@ pub fn run_scheduled(plan: &Plan, rng: &mut Rng, replay_choices: Option<&[usize]
                 replay_pos += 1;
                 match c {
                     Some(c) if runnable.contains(&c) => c,
+                    None if writer_bias == PREFIX_MODE => {
+                        let last = res.choices.last().copied();
+                        // the writer never blocks with the 1 us interval: do not let it starve the others
+                        let streak = res.choices.iter().rev().take_while(|&&c| c == 0).count();
+                        match last {
+                            Some(0) if streak >= 24 && runnable.iter().any(|&r| r != 0) => *runnable.iter().find(|&&r| r != 0).unwrap(),
+                            Some(l) if runnable.contains(&l) => l,
+                            _ => runnable[0],
+                        }
+                    }
                     other => {
                         if res.diverged.is_none() {
                             res.diverged = Some(format!(
@@ -622,6 +639,7 @@ pub fn run_scheduled(plan: &Plan, rng: &mut Rng, replay_choices: Option<&[usize]
             }
         };
         res.choices.push(idx);
+        res.runnable_sets.push(runnable.clone());
         res.grants += 1;
         // grant
         let log_before = ctl.log.lock().unwrap().len();
